@@ -267,6 +267,7 @@ func originsCase(e *ev.Env, c *ev.Case) {
 	cfg.req = hostTuple(schemeOf(cfg.mode), cfg.host)
 	cfg.trusted, cfg.trustedCfg = genTrusted(r)
 	cfg.customMethods = r.Chance(1, 3)
+	cfg.errHandler = r.PickW(5, 2, 3, 2)
 	hs := &histSpec{cfg: cfg, nClients: 1, steps: mkSteps("fetch")}
 	n := r.Range(2, 5)
 	for i := 0; i < n; i++ {
@@ -638,6 +639,31 @@ func corpus(e *ev.Env) {
 					hs := &histSpec{cfg: cfg, nClients: 1, steps: mkSteps("fetch", "own", "advance-past", "own", "fetch", "fetch", "advance-past", "stale", "own")}
 					_, nt := runHistory(e, c, hs, nil, "")
 					noteHistory(e, hs, nt)
+				}
+			}
+		}
+	})
+	// Config.ErrorHandler variants: whatever the handler answers or returns, a refused request must
+	// not run the protected handler (consumed, deleted, expired, forged-in-both, mismatching tokens).
+	e.Corpus("error-handler-variants", func(c *ev.Case) {
+		shapesEH := [][]string{
+			{"fetch", "own", "replay-previous", "own"},
+			{"fetch", "own", "delete-token-post", "stale", "fetch", "own"},
+			{"fetch", "advance-past", "own", "fetch", "own"},
+			{"forged", "fetch", "forged", "other-in-extractor:0", "no-cookie", "no-extractor-value", "own"},
+		}
+		for eh := 0; eh <= 3; eh++ {
+			for _, sh := range shapesEH {
+				for _, be := range []string{bVstore, bSessStore, bSessMW} {
+					for _, ex := range []string{"header", "cookie"} {
+						for _, su := range []bool{false, true} {
+							cfg := fixedCfg(be, ex, su)
+							cfg.errHandler = eh
+							hs := &histSpec{cfg: cfg, nClients: 2, steps: mkSteps(sh...)}
+							_, nt := runHistory(e, c, hs, nil, "")
+							noteHistory(e, hs, nt)
+						}
+					}
 				}
 			}
 		}
